@@ -2,6 +2,8 @@ package c07
 
 import (
 	"encoding/json"
+	"os"
+	"strings"
 	"testing"
 
 	"pgregory.net/rapid"
@@ -119,4 +121,25 @@ func TestRegress(t *testing.T) {
 		}
 		return run(c)
 	}, rec)
+}
+
+// TestDebug replays the history of $VERIF_REPLAY and runs the ';'-separated requests of
+// $VERIF_QUERIES on both twins (a development aid; skipped otherwise).
+func TestDebug(t *testing.T) {
+	qs := os.Getenv("VERIF_QUERIES")
+	if qs == "" {
+		t.Skip("no VERIF_QUERIES")
+	}
+	raw := hx.ReplayCase(t)
+	var c Case
+	if err := json.Unmarshal(raw, &c); err != nil {
+		t.Fatalf("replay case: %v", err)
+	}
+	c.Qs = nil
+	debugQueries = strings.Split(qs, ";")
+	defer func() { debugQueries = nil }()
+	out := runCase(c)
+	if out.fail != nil {
+		t.Logf("history failed: %v", out.fail)
+	}
 }
